@@ -1,1 +1,937 @@
-(* placeholder: to be written *)
+(** Lemmas for C17 (price discovery): the phase function against the documented schedule, the
+    penalty schedule, per-endpoint characterisations, the ledger invariant over all histories,
+    pro-rata redemption and the price floor. *)
+From MX Require Import Base.Prelude Gen.Params Model.PriceDiscovery.
+Set Warnings "-unused-intro-pattern".
+
+(** ------------------------------------------------------------------ facts about the generated constants
+    (the only ones the proofs use; re-checked against /repo on every build) *)
+Lemma pd_phase_order :
+  PD_PHASE_Idle < PD_PHASE_NoPenalty /\ PD_PHASE_NoPenalty < PD_PHASE_LinearIncreasingPenalty /\
+  PD_PHASE_LinearIncreasingPenalty < PD_PHASE_OnlyWithdrawFixedPenalty /\
+  PD_PHASE_OnlyWithdrawFixedPenalty < PD_PHASE_Redeem.
+Proof. vm_compute. repeat split. Qed.
+
+Lemma maxp_pos : 0 < MAXP.
+Proof. vm_compute. reflexivity. Qed.
+
+Lemma nonce_distinct : NL <> NA.
+Proof. vm_compute. discriminate. Qed.
+
+Lemma max_decimals_nonneg : 0 <= PD_MAX_TOKEN_DECIMALS.
+Proof. vm_compute. discriminate. Qed.
+
+(** q is floor(n/d) for d > 0, by cross-multiplication *)
+Definition floor_of (q n d : Z) : Prop := q * d <= n < (q + 1) * d.
+
+Lemma floor_of_div n d : 0 < d -> floor_of (n / d) n d.
+Proof. intros. unfold floor_of. pose proof (div_lo n d H). pose proof (div_hi n d H). lia. Qed.
+
+Lemma floor_of_unique q n d : 0 < d -> floor_of q n d -> q = n / d.
+Proof. intros Hd [A B]. apply (proj2 (div_char n d q Hd)). lia. Qed.
+
+(** ------------------------------------------------------------------ configuration accepted by [init] *)
+Record wf_cfg (c : cfg) : Prop := {
+  w_start : 0 <= c_start c;
+  w_dn : 0 <= c_dn c; w_dl : 0 <= c_dl c; w_df : 0 <= c_df c;
+  w_pmin : 0 <= c_pmin c;
+  w_pmm : c_pmin c <= c_pmax c;
+  w_pmax : c_pmax c < MAXP;
+  w_pfix : 0 <= c_pfix c < MAXP;
+  w_minp : 0 <= c_minp c;
+  w_prec : 0 < c_prec c
+}.
+
+(** The documented schedule: phase boundaries as block heights. *)
+Definition b_nl_end (c : cfg) : Z := c_start c + c_dn c.             (* end of "no restrictions" *)
+Definition b_lin_end (c : cfg) : Z := b_nl_end c + c_dl c.           (* end of "linear increasing penalty" *)
+Definition b_end (c : cfg) : Z := b_lin_end c + c_df c.              (* end of "fixed penalty" = end_block *)
+
+(** The documented linear penalty at block [b]: min + floor((max-min) * blocks passed / (duration-1)),
+    no increase when the phase lasts a single block. *)
+Definition lin_pct_spec (c : cfg) (b pct : Z) : Prop :=
+  exists inc, pct = c_pmin c + inc /\
+    (c_dl c <= 1 -> inc = 0) /\
+    (1 < c_dl c -> floor_of inc ((c_pmax c - c_pmin c) * (b - b_nl_end c)) (c_dl c - 1)).
+
+Definition phase_doc (c : cfg) (b : Z) (ph : phase) : Prop :=
+  match ph with
+  | PhIdle => b < c_start c
+  | PhNoPenalty => c_start c <= b < b_nl_end c
+  | PhLinear pct => b_nl_end c <= b < b_lin_end c /\ lin_pct_spec c b pct /\ c_pmin c <= pct <= c_pmax c
+  | PhFixed pct => b_lin_end c <= b < b_end c /\ pct = c_pfix c
+  | PhRedeem => b_end c <= b
+  end.
+
+Lemma phase_char c b : wf_cfg c ->
+  exists ph, get_current_phase c b = Ok ph /\ phase_doc c b ph.
+Proof.
+  intros W. destruct W. unfold get_current_phase.
+  destruct (b <? c_start c) eqn:E1.
+  { apply Z.ltb_lt in E1. exists PhIdle. split; [reflexivity | exact E1]. }
+  apply Z.ltb_ge in E1. cbv zeta.
+  destruct (b <? c_start c + c_dn c) eqn:E2.
+  { apply Z.ltb_lt in E2. exists PhNoPenalty. split; [reflexivity | unfold phase_doc, b_nl_end; lia]. }
+  apply Z.ltb_ge in E2.
+  destruct (b <? c_start c + c_dn c + c_dl c) eqn:E3.
+  { apply Z.ltb_lt in E3. unfold sub_chk.
+    destruct (b <? c_start c + c_dn c) eqn:E4; [apply Z.ltb_lt in E4; lia|].
+    destruct (c_pmax c <? c_pmin c) eqn:E5; [apply Z.ltb_lt in E5; lia|].
+    cbn [bind]. eexists. split; [reflexivity|].
+    unfold phase_doc, b_lin_end, b_nl_end, lin_pct_spec.
+    split; [lia|].
+    destruct (1 <? c_dl c) eqn:E6.
+    - apply Z.ltb_lt in E6.
+      assert (Hd : 0 < c_dl c - 1) by lia.
+      pose proof (floor_of_div ((c_pmax c - c_pmin c) * (b - (c_start c + c_dn c))) (c_dl c - 1) Hd) as HF.
+      assert (Hlo : 0 <= (c_pmax c - c_pmin c) * (b - (c_start c + c_dn c)) / (c_dl c - 1)).
+      { apply div_nonneg; [nia | lia]. }
+      assert (Hhi : (c_pmax c - c_pmin c) * (b - (c_start c + c_dn c)) / (c_dl c - 1) <= c_pmax c - c_pmin c).
+      { apply Z.div_le_upper_bound; [lia | nia]. }
+      split.
+      + eexists. split; [reflexivity|]. split; [lia | intros _; exact HF].
+      + lia.
+    - apply Z.ltb_ge in E6. split.
+      + exists 0. split; [reflexivity|]. split; [reflexivity | lia].
+      + lia. }
+  apply Z.ltb_ge in E3.
+  destruct (b <? c_start c + c_dn c + c_dl c + c_df c) eqn:E7.
+  { apply Z.ltb_lt in E7. eexists. split; [reflexivity|].
+    unfold phase_doc, b_end, b_lin_end, b_nl_end. split; [lia | reflexivity]. }
+  apply Z.ltb_ge in E7. exists PhRedeem. split; [reflexivity|].
+  unfold phase_doc, b_end, b_lin_end, b_nl_end. lia.
+Qed.
+
+(** The documented schedule read the other way: which phase each block interval is in
+    (durations 0 give empty intervals: the phase is skipped). *)
+Lemma phase_by_block c b : wf_cfg c ->
+  exists ph, get_current_phase c b = Ok ph /\
+    (b < c_start c <-> ph = PhIdle) /\
+    (c_start c <= b < b_nl_end c <-> ph = PhNoPenalty) /\
+    (b_nl_end c <= b < b_lin_end c <-> exists pct, ph = PhLinear pct) /\
+    (b_lin_end c <= b < b_end c <-> ph = PhFixed (c_pfix c)) /\
+    (b_end c <= b <-> ph = PhRedeem).
+Proof.
+  intros W. destruct (phase_char c b W) as (ph & Hph & Hdoc).
+  exists ph. split; [exact Hph|].
+  destruct W.
+  destruct ph; simpl in Hdoc; try (destruct Hdoc as (Hb & Hdoc)); try subst pct;
+    unfold b_end, b_lin_end, b_nl_end in *;
+    repeat match goal with |- _ /\ _ => split | |- _ <-> _ => split end; intros H;
+    first [ reflexivity | discriminate H | (destruct H as [? H]; discriminate H) | lia
+          | (exfalso; lia) | (eexists; reflexivity) ].
+Qed.
+
+(** phases only advance with block height *)
+Lemma phase_mono c b b' ph ph' : wf_cfg c -> b <= b' ->
+  get_current_phase c b = Ok ph -> get_current_phase c b' = Ok ph' ->
+  phase_ix ph <= phase_ix ph'.
+Proof.
+  intros W Hb H1 H2.
+  destruct (phase_char c b W) as (q & Hq & D1). rewrite H1 in Hq. inversion Hq; subst q.
+  destruct (phase_char c b' W) as (q' & Hq' & D2). rewrite H2 in Hq'. inversion Hq'; subst q'.
+  destruct W. pose proof pd_phase_order as (O1 & O2 & O3 & O4).
+  destruct ph, ph'; simpl in *; unfold b_end, b_lin_end, b_nl_end in *; lia.
+Qed.
+
+(** the linear penalty is monotone in the block, starts at min and (for a phase longer than one
+    block) reaches max exactly on the phase's last block *)
+Lemma linear_pct_mono c b b' p p' : wf_cfg c -> b <= b' ->
+  get_current_phase c b = Ok (PhLinear p) -> get_current_phase c b' = Ok (PhLinear p') -> p <= p'.
+Proof.
+  intros W Hb H1 H2.
+  destruct (phase_char c b W) as (q & Hq & D1). rewrite H1 in Hq. inversion Hq; subst q.
+  destruct (phase_char c b' W) as (q' & Hq' & D2). rewrite H2 in Hq'. inversion Hq'; subst q'.
+  simpl in D1, D2. destruct D1 as (B1 & (i1 & -> & Z1 & F1) & _). destruct D2 as (B2 & (i2 & -> & Z2 & F2) & _).
+  destruct W. destruct (Z_le_gt_dec (c_dl c) 1) as [Hd|Hd].
+  - rewrite (Z1 Hd), (Z2 Hd). lia.
+  - specialize (F1 ltac:(lia)). specialize (F2 ltac:(lia)).
+    apply floor_of_unique in F1; [|lia]. apply floor_of_unique in F2; [|lia]. subst i1 i2.
+    assert ((c_pmax c - c_pmin c) * (b - b_nl_end c) / (c_dl c - 1)
+            <= (c_pmax c - c_pmin c) * (b' - b_nl_end c) / (c_dl c - 1)).
+    { apply Z.div_le_mono; [lia | nia]. }
+    lia.
+Qed.
+
+Lemma linear_pct_endpoints c : wf_cfg c -> 0 < c_dl c ->
+  get_current_phase c (b_nl_end c) = Ok (PhLinear (c_pmin c)) /\
+  (1 < c_dl c -> get_current_phase c (b_lin_end c - 1) = Ok (PhLinear (c_pmax c))).
+Proof.
+  intros W Hdl. split.
+  - destruct (phase_by_block c (b_nl_end c) W) as (ph & Hph & _ & _ & HL & _).
+    destruct (proj1 HL) as [pct ->]; [unfold b_lin_end; lia|].
+    destruct (phase_char c (b_nl_end c) W) as (q & Hq & D). rewrite Hph in Hq. inversion Hq; subst q.
+    simpl in D. destruct D as (_ & (i & -> & Z1 & F1) & _).
+    destruct (Z_le_gt_dec (c_dl c) 1) as [Hd|Hd].
+    + rewrite (Z1 Hd) in *. rewrite Hph. f_equal. f_equal. lia.
+    + specialize (F1 ltac:(lia)). apply floor_of_unique in F1; [|lia].
+      replace ((c_pmax c - c_pmin c) * (b_nl_end c - b_nl_end c)) with 0 in F1 by lia.
+      rewrite Z.div_0_l in F1 by lia. subst i. rewrite Hph. f_equal. f_equal. lia.
+  - intros Hd.
+    destruct (phase_by_block c (b_lin_end c - 1) W) as (ph & Hph & _ & _ & HL & _).
+    destruct (proj1 HL) as [pct ->]; [unfold b_lin_end; lia|].
+    destruct (phase_char c (b_lin_end c - 1) W) as (q & Hq & D). rewrite Hph in Hq. inversion Hq; subst q.
+    simpl in D. destruct D as (_ & (i & -> & Z1 & F1) & _).
+    specialize (F1 Hd). apply floor_of_unique in F1; [|lia].
+    replace ((c_pmax c - c_pmin c) * (b_lin_end c - 1 - b_nl_end c))
+      with ((c_pmax c - c_pmin c) * (c_dl c - 1)) in F1 by (unfold b_lin_end; lia).
+    rewrite Z.div_mul in F1 by lia. subst i. rewrite Hph. f_equal. f_equal. lia.
+Qed.
+
+(** the penalty percentage in force, per phase: 0 / linear in [min,max] / the fixed one — always below 100% *)
+Lemma penalty_bounds c b ph : wf_cfg c -> get_current_phase c b = Ok ph ->
+  0 <= penalty_of ph < MAXP.
+Proof.
+  intros W H. destruct (phase_char c b W) as (q & Hq & D). rewrite H in Hq. inversion Hq; subst q.
+  destruct W. pose proof maxp_pos. destruct ph; simpl in *; lia.
+Qed.
+
+(** ------------------------------------------------------------------ gates: which blocks accept which endpoint *)
+Lemma deposit_gate c b ph : wf_cfg c -> get_current_phase c b = Ok ph -> deposit_allowed ph = true ->
+  c_start c <= b < b_lin_end c.
+Proof.
+  intros W H Ha. destruct (phase_char c b W) as (q & Hq & D). rewrite H in Hq. inversion Hq; subst q.
+  destruct W. destruct ph; simpl in *; try discriminate; unfold b_lin_end, b_nl_end in *; lia.
+Qed.
+
+Lemma withdraw_gate c b ph : wf_cfg c -> get_current_phase c b = Ok ph -> withdraw_allowed ph = true ->
+  c_start c <= b < b_end c.
+Proof.
+  intros W H Ha. destruct (phase_char c b W) as (q & Hq & D). rewrite H in Hq. inversion Hq; subst q.
+  destruct W. destruct ph; simpl in *; try discriminate; unfold b_end, b_lin_end, b_nl_end in *; lia.
+Qed.
+
+Lemma redeem_gate c b ph : wf_cfg c -> get_current_phase c b = Ok ph -> redeem_allowed ph = true ->
+  b_end c <= b.
+Proof.
+  intros W H Ha. destruct (phase_char c b W) as (q & Hq & D). rewrite H in Hq. inversion Hq; subst q.
+  destruct ph; simpl in *; try discriminate; exact D.
+Qed.
+
+(** ------------------------------------------------------------------ small specs *)
+Lemma side_of_nonce_spec n l : side_of_nonce n = Ok l -> (l = true /\ n = NL) \/ (l = false /\ n = NA).
+Proof.
+  unfold side_of_nonce. destruct (n =? NL) eqn:E1.
+  - intros H; inversion H. apply Z.eqb_eq in E1. auto.
+  - destruct (n =? NA) eqn:E2; [|discriminate]. intros H; inversion H. apply Z.eqb_eq in E2. auto.
+Qed.
+
+Lemma side_of_token_spec t l : side_of_token t = Ok l -> (l = true /\ t = TOK_L) \/ (l = false /\ t = TOK_A).
+Proof.
+  unfold side_of_token. destruct (t =? TOK_A) eqn:E1.
+  - intros H; inversion H. apply Z.eqb_eq in E1. auto.
+  - destruct (t =? TOK_L) eqn:E2; [|discriminate]. intros H; inversion H. apply Z.eqb_eq in E2. auto.
+Qed.
+
+Lemma calculate_price_spec s p : calculate_price s = Ok p ->
+  0 < p_lb s /\ p = p_ab s * c_prec (p_cfg s) / p_lb s.
+Proof.
+  unfold calculate_price. destruct (0 <? p_lb s) eqn:E; [|discriminate]. apply Z.ltb_lt in E.
+  intros H. apply div_chk_ok in H. tauto.
+Qed.
+
+Lemma aget_le_asum l a : all_nonneg l -> aget l a <= asum l.
+Proof.
+  induction l as [|[k v] t IH]; simpl; intros H; [lia|].
+  inversion H as [|? ? Hh Ht]; subst. simpl in Hh.
+  assert (0 <= asum t).
+  { clear - Ht. induction t as [|[k' v'] t' IH']; simpl; [lia|]. inversion Ht; subst. simpl in *. specialize (IH' H2). lia. }
+  specialize (IH Ht). destruct (k =? a); lia.
+Qed.
+
+(** ------------------------------------------------------------------ what one operation does to the ledger
+    [delta s s' l c dtr dre dopp dsup dh]: on side [l] the tracked balance moves by [dtr], the real
+    holding by [dre], the supply by [dsup], account [c]'s redeem tokens by [dh]; the real holding of the
+    OPPOSITE token moves by [dopp]; everything else (configuration, block, the other side) is untouched. *)
+Record delta (s s' : pd) (l : bool) (c dtr dre dopp dsup dh : Z) : Prop := {
+  d_cfg : p_cfg s' = p_cfg s;
+  d_block : p_block s' = p_block s;
+  d_tr : bal_tr s' l = bal_tr s l + dtr;
+  d_tr' : bal_tr s' (negb l) = bal_tr s (negb l);
+  d_re : bal_re s' l = bal_re s l + dre;
+  d_re' : bal_re s' (negb l) = bal_re s (negb l) + dopp;
+  d_sup : supply s' l = supply s l + dsup;
+  d_sup' : supply s' (negb l) = supply s (negb l);
+  d_hold : hold s' l = aset (hold s l) c (held s l c + dh);
+  d_hold' : hold s' (negb l) = hold s (negb l)
+}.
+
+Lemma ep_deposit_spec s c tok amt s' o :
+  ep_deposit s c tok amt = Ok (s', o) ->
+  exists ph l price,
+    get_current_phase (p_cfg s) (p_block s) = Ok ph /\ deposit_allowed ph = true /\
+    0 <= amt /\ side_of_token tok = Ok l /\ o = [amt] /\
+    delta s s' l c amt amt 0 amt amt /\
+    calculate_price s' = Ok price /\
+    (l = true -> price = 0 \/ c_minp (p_cfg s) <= price).
+Proof.
+  unfold ep_deposit. intros H.
+  apply bind_ok in H. destruct H as (ph & Hph & H).
+  destruct (deposit_allowed ph) eqn:Ea; [|discriminate].
+  destruct (0 <=? amt) eqn:E0; [|discriminate]. apply Z.leb_le in E0.
+  apply bind_ok in H. destruct H as (l & Hl & H). cbv zeta in H.
+  apply bind_ok in H. destruct H as (price & Hp & H).
+  destruct ((price =? 0) || (c_minp (p_cfg s) <=? price) || negb l) eqn:Ef; [|discriminate].
+  inversion H; subst; clear H.
+  exists ph, l, price.
+  split; [exact Hph|]. split; [exact Ea|]. split; [exact E0|]. split; [exact Hl|]. split; [reflexivity|].
+  split.
+  { destruct l; constructor; simpl; unfold held; simpl; try reflexivity; lia. }
+  split.
+  { destruct l; exact Hp. }
+  intros ->. rewrite orb_false_r in Ef. apply orb_prop in Ef.
+  destruct Ef as [Ef|Ef]; [apply Z.eqb_eq in Ef; auto | apply Z.leb_le in Ef; auto].
+Qed.
+
+Lemma ep_withdraw_spec s c n amt s' o :
+  ep_withdraw s c n amt = Ok (s', o) ->
+  exists ph l w price,
+    get_current_phase (p_cfg s) (p_block s) = Ok ph /\ withdraw_allowed ph = true /\
+    0 <= amt /\ side_of_nonce n = Ok l /\ o = [w] /\
+    w = amt - amt * penalty_of ph / MAXP /\
+    amt <= held s l c /\ amt <= supply s l /\ 0 <= w /\ w <= bal_tr s l /\ w <= bal_re s l /\
+    delta s s' l c (- w) (- w) 0 (- amt) (- amt) /\
+    calculate_price s' = Ok price /\ c_minp (p_cfg s) <= price.
+Proof.
+  unfold ep_withdraw. intros H.
+  apply bind_ok in H. destruct H as (ph & Hph & H).
+  destruct (withdraw_allowed ph) eqn:Ea; [|discriminate].
+  destruct (0 <=? amt) eqn:E0; [|discriminate]. apply Z.leb_le in E0.
+  apply bind_ok in H. destruct H as (l & Hl & H).
+  apply bind_ok in H. destruct H as (hb & Hhb & H). cbv zeta in H.
+  apply bind_ok in H. destruct H as (sup & Hsup & H).
+  apply bind_ok in H. destruct H as (w & Hw & H).
+  apply bind_ok in H. destruct H as (nb & Hnb & H).
+  apply bind_ok in H. destruct H as (price & Hp & H).
+  destruct (c_minp (p_cfg s) <=? price) eqn:Ef; [|discriminate]. apply Z.leb_le in Ef.
+  apply bind_ok in H. destruct H as (rb & Hrb & H).
+  inversion H; subst; clear H.
+  apply sub_chk_ok in Hhb. destruct Hhb as [Hh1 ->].
+  apply sub_chk_ok in Hw. destruct Hw as [Hw1 ->].
+  exists ph, l, (amt - amt * penalty_of ph / MAXP), price.
+  split; [exact Hph|]. split; [exact Ea|]. split; [exact E0|]. split; [exact Hl|]. split; [reflexivity|].
+  split; [reflexivity|]. split; [exact Hh1|].
+  destruct l; simpl in *;
+    apply sub_chk_ok in Hsup; destruct Hsup as [Hs1 ->];
+    apply sub_chk_ok in Hnb; destruct Hnb as [Hn1 ->];
+    apply sub_chk_ok in Hrb; destruct Hrb as [Hr1 ->];
+    (split; [exact Hs1|]); (split; [lia|]); (split; [exact Hn1|]); (split; [exact Hr1|]);
+    (split; [constructor; simpl; unfold held; simpl; try reflexivity; try lia;
+             f_equal; lia |]);
+    (split; [exact Hp | exact Ef]).
+Qed.
+
+(** ------------------------------------------------------------------ the ledger invariant *)
+Record Inv (s : pd) : Prop := {
+  i_cfg : wf_cfg (p_cfg s);
+  i_nn : 0 <= p_lb s /\ 0 <= p_ab s /\ 0 <= p_rl s /\ 0 <= p_ra s /\ 0 <= p_s1 s /\ 0 <= p_s2 s;
+  i_nd1 : NoDup (akeys (p_h1 s));
+  i_nd2 : NoDup (akeys (p_h2 s));
+  i_hn1 : all_nonneg (p_h1 s);
+  i_hn2 : all_nonneg (p_h2 s);
+  (* redeem tokens in circulation never exceed the recorded supply *)
+  i_c1 : asum (p_h1 s) <= p_s1 s;
+  i_c2 : asum (p_h2 s) <= p_s2 s;
+  (* real holdings never exceed the tracked balances ... *)
+  i_re : p_rl s <= p_lb s /\ p_ra s <= p_ab s;
+  (* ... and before the redeem phase they are EQUAL, and the supply is exactly what circulates *)
+  i_open : p_block s < b_end (p_cfg s) ->
+           p_rl s = p_lb s /\ p_ra s = p_ab s /\ asum (p_h1 s) = p_s1 s /\ asum (p_h2 s) = p_s2 s;
+  (* what has been paid out of a pool is at most the pool's share of the redeem tokens already burned:
+     paid * supply <= pool * redeemed   (launched pool / nonce-2 tokens, accepted pool / nonce-1 tokens) *)
+  i_payL : (p_lb s - p_rl s) * p_s2 s <= p_lb s * (p_s2 s - asum (p_h2 s));
+  i_payA : (p_ab s - p_ra s) * p_s1 s <= p_ab s * (p_s1 s - asum (p_h1 s))
+}.
+
+Lemma inv_side s l : Inv s ->
+  0 <= bal_tr s l /\ 0 <= bal_re s l /\ 0 <= supply s l /\ bal_re s l <= bal_tr s l /\
+  NoDup (akeys (hold s l)) /\ all_nonneg (hold s l) /\ asum (hold s l) <= supply s l.
+Proof. intros []. destruct l; simpl; repeat split; try tauto; lia. Qed.
+
+Lemma ep_redeem_spec s c n amt s' o :
+  Inv s -> ep_redeem s c n amt = Ok (s', o) ->
+  exists ph l q,
+    get_current_phase (p_cfg s) (p_block s) = Ok ph /\ redeem_allowed ph = true /\
+    0 <= amt /\ side_of_nonce n = Ok l /\ o = [q] /\
+    0 < supply s l /\ q = bal_tr s (negb l) * amt / supply s l /\ 0 <= q /\
+    amt <= held s l c /\ q <= bal_re s (negb l) /\
+    delta s s' l c 0 0 (- q) 0 (- amt).
+Proof.
+  unfold ep_redeem. intros HI H.
+  apply bind_ok in H. destruct H as (ph & Hph & H).
+  destruct (redeem_allowed ph) eqn:Ea; [|discriminate].
+  destruct (0 <=? amt) eqn:E0; [|discriminate]. apply Z.leb_le in E0.
+  apply bind_ok in H. destruct H as (l & Hl & H).
+  apply bind_ok in H. destruct H as (hb & Hhb & H).
+  apply bind_ok in H. destruct H as (q & Hq & H). cbv zeta in H.
+  apply sub_chk_ok in Hhb. destruct Hhb as [Hh1 ->].
+  apply div_chk_ok in Hq. destruct Hq as [Hs0 Hq].
+  destruct (inv_side s l HI) as (_ & _ & Hsup & _).
+  destruct (inv_side s (negb l) HI) as (Htr & Hre & _).
+  assert (Hsp : 0 < supply s l) by lia.
+  assert (Hq0 : 0 <= q) by (subst q; apply div_nonneg; [nia | lia]).
+  exists ph, l, q.
+  split; [exact Hph|]. split; [exact Ea|]. split; [exact E0|]. split; [exact Hl|].
+  destruct (0 <? q) eqn:Eq.
+  - apply bind_ok in H. destruct H as (rb & Hrb & H). inversion H; subst s' o; clear H.
+    apply sub_chk_ok in Hrb.
+    split; [reflexivity|]. split; [exact Hsp|]. split; [exact Hq|]. split; [exact Hq0|]. split; [exact Hh1|].
+    destruct l; simpl in *; destruct Hrb as [Hr1 ->]; (split; [exact Hr1|]);
+      constructor; simpl; unfold held; simpl; try reflexivity; try lia; f_equal; lia.
+  - inversion H; subst s' o; clear H. apply Z.ltb_ge in Eq.
+    assert (q = 0) by lia.
+    split; [reflexivity|]. split; [exact Hsp|]. split; [exact Hq|]. split; [exact Hq0|]. split; [exact Hh1|].
+    split; [lia|].
+    destruct l; simpl in *; constructor; simpl; unfold held; simpl; try reflexivity; try lia; f_equal; lia.
+Qed.
+
+Lemma ep_xfer_spec s a b n amt s' o :
+  ep_xfer s a b n amt = Ok (s', o) ->
+  exists l, side_of_nonce n = Ok l /\ 0 <= amt <= held s l a /\ o = [] /\
+    p_cfg s' = p_cfg s /\ p_block s' = p_block s /\
+    p_lb s' = p_lb s /\ p_ab s' = p_ab s /\ p_rl s' = p_rl s /\ p_ra s' = p_ra s /\
+    p_s1 s' = p_s1 s /\ p_s2 s' = p_s2 s /\
+    hold s' (negb l) = hold s (negb l) /\
+    hold s' l = aset (aset (hold s l) a (held s l a - amt)) b
+                     (aget (aset (hold s l) a (held s l a - amt)) b + amt).
+Proof.
+  unfold ep_xfer. intros H.
+  destruct (0 <=? amt) eqn:E0; [|discriminate]. apply Z.leb_le in E0.
+  apply bind_ok in H. destruct H as (l & Hl & H).
+  apply bind_ok in H. destruct H as (hb & Hhb & H). cbv zeta in H.
+  apply sub_chk_ok in Hhb. destruct Hhb as [Hh1 ->].
+  inversion H; subst; clear H. exists l.
+  split; [exact Hl|]. split; [lia|]. split; [reflexivity|].
+  destruct l; simpl; unfold held; simpl; repeat split; reflexivity.
+Qed.
+
+(** ------------------------------------------------------------------ preservation *)
+Lemma inv_tick s d s' o : Inv s -> ep_tick s d = Ok (s', o) -> Inv s' /\ p_block s <= p_block s'.
+Proof.
+  unfold ep_tick. intros HI H. destruct (0 <=? d) eqn:E; [|discriminate]. apply Z.leb_le in E.
+  inversion H; subst; clear H. split; [|simpl; lia].
+  destruct HI. constructor; simpl; auto. intros Hb. apply i_open0. lia.
+Qed.
+
+(** holdings update: one account's entry moves by [dh], staying non-negative *)
+Lemma hold_update h c dh : NoDup (akeys h) -> all_nonneg h -> 0 <= aget h c + dh ->
+  NoDup (akeys (aset h c (aget h c + dh))) /\ all_nonneg (aset h c (aget h c + dh)) /\
+  asum (aset h c (aget h c + dh)) = asum h + dh.
+Proof.
+  intros ND NN H. split; [apply nodup_aset; exact ND|]. split; [apply all_nonneg_aset; assumption|].
+  rewrite asum_aset by exact ND. lia.
+Qed.
+
+Ltac fin U3 :=
+  auto; try lia; try (rewrite ?U3; lia); try (intros _; rewrite ?U3; lia); try (rewrite ?U3; nia).
+
+Lemma inv_deposit s c tok amt s' o : Inv s -> ep_deposit s c tok amt = Ok (s', o) -> Inv s'.
+Proof.
+  intros HI H. apply ep_deposit_spec in H.
+  destruct H as (ph & l & price & Hph & Ha & Hamt & _ & _ & D & _).
+  pose proof (deposit_gate _ _ _ (i_cfg _ HI) Hph Ha) as Hg.
+  destruct D. destruct HI.
+  assert (Hend : p_block s < b_end (p_cfg s)).
+  { destruct i_cfg0. unfold b_end. lia. }
+  destruct (i_open0 Hend) as (O1 & O2 & O3 & O4).
+  destruct i_nn0 as (N1 & N2 & N3 & N4 & N5 & N6).
+  destruct l; simpl in *; unfold held in *; simpl in *.
+  - pose proof (aget_nonneg _ c i_hn3) as Hc.
+    destruct (hold_update (p_h1 s) c amt i_nd3 i_hn3 ltac:(lia)) as (U1 & U2 & U3).
+    constructor; rewrite ?d_cfg0, ?d_block0, ?d_hold0, ?d_hold'0; fin U3.
+  - pose proof (aget_nonneg _ c i_hn4) as Hc.
+    destruct (hold_update (p_h2 s) c amt i_nd4 i_hn4 ltac:(lia)) as (U1 & U2 & U3).
+    constructor; rewrite ?d_cfg0, ?d_block0, ?d_hold0, ?d_hold'0; fin U3.
+Qed.
+
+Lemma inv_withdraw s c n amt s' o : Inv s -> ep_withdraw s c n amt = Ok (s', o) -> Inv s'.
+Proof.
+  intros HI H. apply ep_withdraw_spec in H.
+  destruct H as (ph & l & w & price & Hph & Ha & Hamt & _ & _ & _ & Hheld & Hsup & Hw0 & Hwt & Hwr & D & _).
+  pose proof (withdraw_gate _ _ _ (i_cfg _ HI) Hph Ha) as Hg.
+  destruct D. destruct HI.
+  assert (Hend : p_block s < b_end (p_cfg s)) by lia.
+  destruct (i_open0 Hend) as (O1 & O2 & O3 & O4).
+  destruct i_nn0 as (N1 & N2 & N3 & N4 & N5 & N6).
+  destruct l; simpl in *; unfold held in *; simpl in *.
+  - destruct (hold_update (p_h1 s) c (- amt) i_nd3 i_hn3 ltac:(lia)) as (U1 & U2 & U3).
+    constructor; rewrite ?d_cfg0, ?d_block0, ?d_hold0, ?d_hold'0; fin U3.
+  - destruct (hold_update (p_h2 s) c (- amt) i_nd4 i_hn4 ltac:(lia)) as (U1 & U2 & U3).
+    constructor; rewrite ?d_cfg0, ?d_block0, ?d_hold0, ?d_hold'0; fin U3.
+Qed.
+
+Lemma inv_redeem s c n amt s' o : Inv s -> ep_redeem s c n amt = Ok (s', o) -> Inv s'.
+Proof.
+  intros HI H. apply ep_redeem_spec in H; [|exact HI].
+  destruct H as (ph & l & q & Hph & Ha & Hamt & _ & _ & Hsp & Hq & Hq0 & Hheld & Hqr & D).
+  pose proof (redeem_gate _ _ _ (i_cfg _ HI) Hph Ha) as Hg.
+  pose proof (div_lo (bal_tr s (negb l) * amt) (supply s l) Hsp) as Hlo. rewrite <- Hq in Hlo.
+  clear Hq.
+  destruct D. destruct HI.
+  destruct i_nn0 as (N1 & N2 & N3 & N4 & N5 & N6). destruct i_re0 as (R1 & R2).
+  destruct l; simpl in *; unfold held in *; simpl in *.
+  - pose proof (aget_le_asum _ c i_hn3) as Hle.
+    destruct (hold_update (p_h1 s) c (- amt) i_nd3 i_hn3 ltac:(lia)) as (U1 & U2 & U3).
+    constructor; rewrite ?d_cfg0, ?d_block0, ?d_hold0, ?d_hold'0; fin U3.
+  - pose proof (aget_le_asum _ c i_hn4) as Hle.
+    destruct (hold_update (p_h2 s) c (- amt) i_nd4 i_hn4 ltac:(lia)) as (U1 & U2 & U3).
+    constructor; rewrite ?d_cfg0, ?d_block0, ?d_hold0, ?d_hold'0; fin U3.
+Qed.
+
+Lemma inv_xfer s a b n amt s' o : Inv s -> ep_xfer s a b n amt = Ok (s', o) -> Inv s'.
+Proof.
+  intros HI H. apply ep_xfer_spec in H.
+  destruct H as (l & _ & Hamt & _ & C1 & C2 & C3 & C4 & C5 & C6 & C7 & C8 & Ho & Hh).
+  destruct HI.
+  destruct l; simpl in *; unfold held in *; simpl in *.
+  - replace (aget (p_h1 s) a - amt) with (aget (p_h1 s) a + - amt) in Hh by lia.
+    destruct (hold_update (p_h1 s) a (- amt) i_nd3 i_hn3 ltac:(lia)) as (U1 & U2 & U3).
+    pose proof (aget_nonneg _ b U2) as Hb.
+    destruct (hold_update _ b amt U1 U2 ltac:(lia)) as (V1 & V2 & V3).
+    rewrite <- Hh in V1, V2, V3.
+    assert (HS : asum (p_h1 s') = asum (p_h1 s)) by lia.
+    constructor; rewrite ?C1, ?C2, ?C3, ?C4, ?C5, ?C6, ?C7, ?C8, ?Ho, ?HS; auto.
+  - replace (aget (p_h2 s) a - amt) with (aget (p_h2 s) a + - amt) in Hh by lia.
+    destruct (hold_update (p_h2 s) a (- amt) i_nd4 i_hn4 ltac:(lia)) as (U1 & U2 & U3).
+    pose proof (aget_nonneg _ b U2) as Hb.
+    destruct (hold_update _ b amt U1 U2 ltac:(lia)) as (V1 & V2 & V3).
+    rewrite <- Hh in V1, V2, V3.
+    assert (HS : asum (p_h2 s') = asum (p_h2 s)) by lia.
+    constructor; rewrite ?C1, ?C2, ?C3, ?C4, ?C5, ?C6, ?C7, ?C8, ?Ho, ?HS; auto.
+Qed.
+
+(** every successful operation preserves the invariant, never changes the configuration and never
+    moves the block height backwards *)
+Lemma step_inv s op s' o : Inv s -> step s op = Ok (s', o) ->
+  Inv s' /\ p_cfg s' = p_cfg s /\ p_block s <= p_block s'.
+Proof.
+  intros HI H. destruct op; simpl in H.
+  - destruct (inv_tick _ _ _ _ HI H) as [I B]. split; [exact I|]. split; [|exact B].
+    unfold ep_tick in H. destruct (0 <=? d); [|discriminate]. inversion H; reflexivity.
+  - split; [eapply inv_deposit; eauto|]. apply ep_deposit_spec in H.
+    destruct H as (? & ? & ? & _ & _ & _ & _ & _ & [] & _). split; [assumption | lia].
+  - split; [eapply inv_withdraw; eauto|]. apply ep_withdraw_spec in H.
+    destruct H as (? & ? & ? & ? & _ & _ & _ & _ & _ & _ & _ & _ & _ & _ & _ & [] & _). split; [assumption | lia].
+  - split; [eapply inv_redeem; eauto|]. apply ep_redeem_spec in H; [|exact HI].
+    destruct H as (? & ? & ? & _ & _ & _ & _ & _ & _ & _ & _ & _ & _ & []). split; [assumption | lia].
+  - split; [eapply inv_xfer; eauto|]. apply ep_xfer_spec in H.
+    destruct H as (? & _ & _ & _ & C1 & C2 & _). split; [assumption | lia].
+Qed.
+
+Lemma step_total_inv s op : Inv s ->
+  Inv (step_total s op) /\ p_cfg (step_total s op) = p_cfg s /\ p_block s <= p_block (step_total s op).
+Proof.
+  intros HI. unfold step_total. destruct (step s op) as [[s' o]|] eqn:E.
+  - eapply step_inv; eauto.
+  - split; [exact HI|]. split; [reflexivity | lia].
+Qed.
+
+Lemma run_inv ops : forall s, Inv s ->
+  Inv (run s ops) /\ p_cfg (run s ops) = p_cfg s /\ p_block s <= p_block (run s ops).
+Proof.
+  induction ops as [|op t IH]; intros s HI; simpl.
+  - split; [exact HI|]. split; [reflexivity | lia].
+  - destruct (step_total_inv s op HI) as (I1 & C1 & B1).
+    destruct (IH _ I1) as (I2 & C2 & B2). unfold run in *.
+    split; [exact I2|]. split; [congruence | lia].
+Qed.
+
+Lemma init_inv cur decimals minp start dn dl df pmin pmax pfix s :
+  init_pd cur decimals minp start dn dl df pmin pmax pfix = Ok s ->
+  Inv s /\ p_block s = cur /\ cur < c_start (p_cfg s) /\ p_lb s = 0 /\ p_ab s = 0 /\
+  c_prec (p_cfg s) = 10 ^ decimals /\ 0 <= decimals <= PD_MAX_TOKEN_DECIMALS.
+Proof.
+  unfold init_pd. intros H.
+  destruct (_ && _) eqn:E0 in H; [|discriminate].
+  repeat (apply andb_prop in E0; destruct E0 as [E0 ?]).
+  repeat match goal with Hx : (_ <=? _) = true |- _ => apply Z.leb_le in Hx end.
+  destruct (decimals <=? PD_MAX_TOKEN_DECIMALS) eqn:E1; [|discriminate]. apply Z.leb_le in E1.
+  destruct (cur <? start) eqn:E2; [|discriminate]. apply Z.ltb_lt in E2.
+  destruct (pmin <=? pmax) eqn:E3; [|discriminate]. apply Z.leb_le in E3.
+  destruct (pmax <? MAXP) eqn:E4; [|discriminate]. apply Z.ltb_lt in E4.
+  destruct (pfix <? MAXP) eqn:E5; [|discriminate]. apply Z.ltb_lt in E5.
+  inversion H; subst; clear H. simpl.
+  split; [|repeat split; auto; lia].
+  assert (0 < 10 ^ decimals) by (apply Z.pow_pos_nonneg; lia).
+  constructor; simpl; try lia; try (constructor; simpl; lia); constructor.
+Qed.
+
+(** phases only advance along any history *)
+Lemma run_phase_mono s ops ph ph' : Inv s ->
+  view_phase s = Ok ph -> view_phase (run s ops) = Ok ph' -> phase_ix ph <= phase_ix ph'.
+Proof.
+  intros HI H1 H2. destruct (run_inv ops s HI) as (_ & C & B).
+  unfold view_phase in *. rewrite C in H2.
+  eapply phase_mono; eauto. apply (i_cfg _ HI).
+Qed.
+
+(** ------------------------------------------------------------------ characterisations (what the theorems of C17 cite) *)
+
+(** gates, in terms of the documented block intervals *)
+Lemma deposit_only_in_phase s c tok amt s' o : wf_cfg (p_cfg s) ->
+  ep_deposit s c tok amt = Ok (s', o) -> c_start (p_cfg s) <= p_block s < b_lin_end (p_cfg s).
+Proof.
+  intros W H. apply ep_deposit_spec in H. destruct H as (ph & l & pr & Hph & Ha & _).
+  eapply deposit_gate; eauto.
+Qed.
+
+Lemma withdraw_only_in_phase s c n amt s' o : wf_cfg (p_cfg s) ->
+  ep_withdraw s c n amt = Ok (s', o) -> c_start (p_cfg s) <= p_block s < b_end (p_cfg s).
+Proof.
+  intros W H. apply ep_withdraw_spec in H. destruct H as (ph & l & w & pr & Hph & Ha & _).
+  eapply withdraw_gate; eauto.
+Qed.
+
+Lemma redeem_only_in_phase s c n amt s' o : wf_cfg (p_cfg s) ->
+  ep_redeem s c n amt = Ok (s', o) -> b_end (p_cfg s) <= p_block s.
+Proof.
+  intros W H. unfold ep_redeem in H.
+  apply bind_ok in H. destruct H as (ph & Hph & H).
+  destruct (redeem_allowed ph) eqn:Ea; [|discriminate].
+  eapply redeem_gate; eauto.
+Qed.
+
+(** account [c]'s redeem tokens after a ledger delta; everybody else's are untouched *)
+Lemma delta_held s s' l c dtr dre dopp dsup dh : delta s s' l c dtr dre dopp dsup dh ->
+  held s' l c = held s l c + dh /\ (forall a, a <> c -> held s' l a = held s l a) /\
+  (forall a, held s' (negb l) a = held s (negb l) a).
+Proof.
+  intros []. unfold held. rewrite d_hold0, d_hold'0.
+  split; [apply aget_aset_same|]. split; [|reflexivity].
+  intros a Ha. apply aget_aset_other. congruence.
+Qed.
+
+(** the penalty percentage in force at a block, against the documented schedule *)
+Definition pct_doc (c : cfg) (b pct : Z) : Prop :=
+  (c_start c <= b < b_nl_end c -> pct = 0) /\
+  (b_nl_end c <= b < b_lin_end c -> lin_pct_spec c b pct /\ c_pmin c <= pct <= c_pmax c) /\
+  (b_lin_end c <= b < b_end c -> pct = c_pfix c).
+
+Lemma penalty_doc c b ph : wf_cfg c -> get_current_phase c b = Ok ph -> pct_doc c b (penalty_of ph).
+Proof.
+  intros W H. destruct (phase_char c b W) as (q & Hq & D). rewrite H in Hq. inversion Hq; subst q.
+  destruct W. unfold pct_doc.
+  destruct ph; simpl in *; unfold b_end, b_lin_end, b_nl_end in *;
+    repeat split; intros; try reflexivity; try lia; try tauto.
+Qed.
+
+Lemma withdraw_char s c n amt s' o :
+  Inv s -> ep_withdraw s c n amt = Ok (s', o) ->
+  exists l pct pen,
+    side_of_nonce n = Ok l /\ 0 <= amt <= held s l c /\
+    c_start (p_cfg s) <= p_block s < b_end (p_cfg s) /\
+    pct_doc (p_cfg s) (p_block s) pct /\ 0 <= pct < MAXP /\
+    floor_of pen (amt * pct) MAXP /\ 0 <= pen <= amt /\
+    o = [amt - pen] /\
+    (* the penalty stays in the pool: tracked and real balances go down by amount - penalty only *)
+    bal_tr s' l = bal_tr s l - (amt - pen) /\ bal_re s' l = bal_re s l - (amt - pen) /\
+    bal_tr s' (negb l) = bal_tr s (negb l) /\ bal_re s' (negb l) = bal_re s (negb l) /\
+    supply s' l = supply s l - amt /\ supply s' (negb l) = supply s (negb l) /\
+    held s' l c = held s l c - amt /\ (forall a, a <> c -> held s' l a = held s l a) /\
+    (forall a, held s' (negb l) a = held s (negb l) a).
+Proof.
+  intros HI H. pose proof (i_cfg _ HI) as W.
+  pose proof (withdraw_only_in_phase _ _ _ _ _ _ W H) as Hg.
+  apply ep_withdraw_spec in H.
+  destruct H as (ph & l & w & price & Hph & Ha & Hamt & Hl & Ho & Hw & Hheld & Hsup & Hw0 & Hwt & Hwr & D & _).
+  pose proof (penalty_bounds _ _ _ W Hph) as Hpb.
+  pose proof (penalty_doc _ _ _ W Hph) as Hpd.
+  pose proof maxp_pos as HM.
+  pose proof (floor_of_div (amt * penalty_of ph) MAXP HM) as HF.
+  assert (Hpen : 0 <= amt * penalty_of ph / MAXP <= amt).
+  { split; [apply div_nonneg; [nia | lia]|]. apply Z.div_le_upper_bound; [lia | nia]. }
+  destruct (delta_held _ _ _ _ _ _ _ _ _ D) as (H1 & H2 & H3).
+  destruct D.
+  exists l, (penalty_of ph), (amt * penalty_of ph / MAXP).
+  split; [exact Hl|]. split; [lia|]. split; [exact Hg|]. split; [exact Hpd|]. split; [exact Hpb|].
+  split; [exact HF|]. split; [exact Hpen|]. split; [subst w; exact Ho|].
+  subst w. repeat (split; [lia|]). split; [exact H2 | exact H3].
+Qed.
+
+Lemma deposit_char s c tok amt s' o :
+  Inv s -> ep_deposit s c tok amt = Ok (s', o) ->
+  exists l,
+    side_of_token tok = Ok l /\ 0 <= amt /\ o = [amt] /\
+    c_start (p_cfg s) <= p_block s < b_lin_end (p_cfg s) /\
+    bal_tr s' l = bal_tr s l + amt /\ bal_re s' l = bal_re s l + amt /\
+    bal_tr s' (negb l) = bal_tr s (negb l) /\ bal_re s' (negb l) = bal_re s (negb l) /\
+    supply s' l = supply s l + amt /\ supply s' (negb l) = supply s (negb l) /\
+    held s' l c = held s l c + amt /\ (forall a, a <> c -> held s' l a = held s l a) /\
+    (forall a, held s' (negb l) a = held s (negb l) a) /\
+    0 < p_lb s'.
+Proof.
+  intros HI H. pose proof (i_cfg _ HI) as W.
+  pose proof (deposit_only_in_phase _ _ _ _ _ _ W H) as Hg.
+  apply ep_deposit_spec in H.
+  destruct H as (ph & l & price & Hph & Ha & Hamt & Hl & Ho & D & Hp & _).
+  destruct (delta_held _ _ _ _ _ _ _ _ _ D) as (H1 & H2 & H3).
+  apply calculate_price_spec in Hp. destruct Hp as [Hp _].
+  destruct D. exists l.
+  split; [exact Hl|]. split; [exact Hamt|]. split; [exact Ho|]. split; [exact Hg|].
+  repeat (split; [lia|]). split; [exact H2|]. split; [exact H3 | exact Hp].
+Qed.
+
+Lemma redeem_char s c n amt s' o :
+  Inv s -> ep_redeem s c n amt = Ok (s', o) ->
+  exists l q,
+    side_of_nonce n = Ok l /\ 0 <= amt <= held s l c /\
+    b_end (p_cfg s) <= p_block s /\
+    (* pays the floor of (opposite pool * amount / total redeem supply of the nonce) *)
+    0 < supply s l /\ floor_of q (bal_tr s (negb l) * amt) (supply s l) /\ 0 <= q /\
+    o = [q] /\
+    (* pools and supplies are frozen *)
+    p_lb s' = p_lb s /\ p_ab s' = p_ab s /\ p_s1 s' = p_s1 s /\ p_s2 s' = p_s2 s /\
+    (* the payment leaves the real holding of the opposite token, nothing else moves *)
+    bal_re s' (negb l) = bal_re s (negb l) - q /\ bal_re s' l = bal_re s l /\
+    (* the redeem tokens are gone: each pays exactly once *)
+    held s' l c = held s l c - amt /\ (forall a, a <> c -> held s' l a = held s l a) /\
+    (forall a, held s' (negb l) a = held s (negb l) a).
+Proof.
+  intros HI H. pose proof (i_cfg _ HI) as W.
+  pose proof (redeem_only_in_phase _ _ _ _ _ _ W H) as Hg.
+  apply ep_redeem_spec in H; [|exact HI].
+  destruct H as (ph & l & q & Hph & Ha & Hamt & Hl & Ho & Hsp & Hq & Hq0 & Hheld & Hqr & D).
+  pose proof (floor_of_div (bal_tr s (negb l) * amt) (supply s l) Hsp) as HF. rewrite <- Hq in HF.
+  destruct (delta_held _ _ _ _ _ _ _ _ _ D) as (H1 & H2 & H3).
+  destruct D. exists l, q.
+  split; [exact Hl|]. split; [lia|]. split; [exact Hg|]. split; [exact Hsp|]. split; [exact HF|].
+  split; [exact Hq0|]. split; [exact Ho|].
+  destruct l; simpl in *; repeat (split; [lia|]); (split; [exact H2 | exact H3]).
+Qed.
+
+(** redemption can always be honoured: a holder's redeem never fails for lack of funds *)
+Lemma redeem_succeeds s c n amt l :
+  Inv s -> b_end (p_cfg s) <= p_block s -> side_of_nonce n = Ok l -> 0 < amt <= held s l c ->
+  is_ok (ep_redeem s c n amt) = true.
+Proof.
+  intros HI Hb Hl Hamt. pose proof (i_cfg _ HI) as W.
+  destruct (phase_by_block (p_cfg s) (p_block s) W) as (ph & Hph & _ & _ & _ & _ & HR).
+  apply (proj1 HR) in Hb. subst ph.
+  unfold ep_redeem. rewrite Hph. cbn [bind redeem_allowed].
+  destruct (0 <=? amt) eqn:E0; [|apply Z.leb_gt in E0; lia].
+  rewrite Hl. cbn [bind].
+  unfold sub_chk at 1. destruct (held s l c <? amt) eqn:E1; [apply Z.ltb_lt in E1; lia|]. cbn [bind].
+  destruct (inv_side s l HI) as (_ & _ & Hsup & _ & _ & Hnn & Hc).
+  pose proof (aget_le_asum (hold s l) c Hnn) as Hle. unfold held in Hamt.
+  assert (Hsp : 0 < supply s l) by lia.
+  unfold div_chk. destruct (supply s l =? 0) eqn:E2; [apply Z.eqb_eq in E2; lia|]. cbn [bind].
+  destruct (0 <? bal_tr s (negb l) * amt / supply s l) eqn:E3; [|reflexivity].
+  (* the payout fits into the real holding: paid*supply <= pool*redeemed *)
+  assert (Hfit : bal_tr s (negb l) * amt / supply s l <= bal_re s (negb l)).
+  { pose proof (div_lo (bal_tr s (negb l) * amt) (supply s l) Hsp) as Hlo.
+    set (q := bal_tr s (negb l) * amt / supply s l) in *. clearbody q.
+    destruct HI. destruct i_nn0 as (N1 & N2 & N3 & N4 & N5 & N6).
+    destruct l; simpl in *; nia. }
+  unfold sub_chk.
+  destruct l; simpl in *;
+    match goal with |- context [?a <? ?b] => destruct (a <? b) eqn:E4 end;
+    try reflexivity; apply Z.ltb_lt in E4; lia.
+Qed.
+
+(** ------------------------------------------------------------------ total payouts over any history *)
+(** what has left a pool so far: tracked minus real *)
+Definition deficit (s : pd) (l : bool) : Z := bal_tr s l - bal_re s l.
+
+Definition payout_of (op : pdop) (o : outs) (n : Z) : Z :=
+  match op with Redeem _ n' _ => if n' =? n then hd 0 o else 0 | _ => 0 end.
+
+Lemma step_deficit s op s' o : Inv s -> step s op = Ok (s', o) ->
+  deficit s' true - deficit s true = payout_of op o NA /\
+  deficit s' false - deficit s false = payout_of op o NL.
+Proof.
+  intros HI H. unfold deficit. destruct op; simpl in H; unfold payout_of.
+  - unfold ep_tick in H. destruct (0 <=? d); [|discriminate]. inversion H; subst. simpl. lia.
+  - apply ep_deposit_spec in H. destruct H as (? & l & ? & _ & _ & _ & _ & _ & [] & _).
+    destruct l; simpl in *; lia.
+  - apply ep_withdraw_spec in H.
+    destruct H as (? & l & ? & ? & _ & _ & _ & _ & _ & _ & _ & _ & _ & _ & _ & [] & _).
+    destruct l; simpl in *; lia.
+  - apply ep_redeem_spec in H; [|exact HI].
+    destruct H as (? & l & q & _ & _ & _ & Hl & -> & _ & _ & _ & _ & _ & []).
+    apply side_of_nonce_spec in Hl. pose proof nonce_distinct as ND.
+    assert (E1 : (NL =? NA) = false) by (apply Z.eqb_neq; exact ND).
+    assert (E2 : (NA =? NL) = false) by (apply Z.eqb_neq; congruence).
+    destruct Hl as [[-> ->]|[-> ->]]; rewrite ?Z.eqb_refl, ?E1, ?E2; cbn [bal_tr bal_re negb hd] in *; lia.
+  - apply ep_xfer_spec in H. destruct H as (l & _ & _ & _ & _ & _ & C3 & C4 & C5 & C6 & _).
+    simpl. lia.
+Qed.
+
+Lemma paid_run ops : forall s, Inv s ->
+  paid s ops NA = deficit (run s ops) true - deficit s true /\
+  paid s ops NL = deficit (run s ops) false - deficit s false.
+Proof.
+  induction ops as [|op t IH]; intros s HI; simpl.
+  - lia.
+  - unfold run in *. simpl. unfold step_total at 2 4.
+    destruct (step s op) as [[s' o]|] eqn:E.
+    + destruct (step_inv _ _ _ _ HI E) as (I' & _ & _).
+      destruct (step_deficit _ _ _ _ HI E) as (D1 & D2). unfold payout_of in D1, D2.
+      destruct (IH _ I') as (P1 & P2). rewrite P1, P2. lia.
+    + apply IH. exact HI.
+Qed.
+
+(** Over ANY history (deposits, withdrawals, block advances, transfers and redemptions in any order,
+    by any accounts): what redemptions have paid out of a pool, plus what had left it before, is
+    bounded by the pool's share of the redeem tokens burned so far, hence by the pool itself. *)
+Lemma redeem_total s ops : Inv s ->
+  let s' := run s ops in
+  (paid s ops NA + deficit s true) * p_s2 s' <= p_lb s' * (p_s2 s' - asum (p_h2 s')) /\
+  (paid s ops NL + deficit s false) * p_s1 s' <= p_ab s' * (p_s1 s' - asum (p_h1 s')) /\
+  paid s ops NA + deficit s true <= p_lb s' /\
+  paid s ops NL + deficit s false <= p_ab s' /\
+  0 <= p_rl s' /\ 0 <= p_ra s'.
+Proof.
+  intros HI s'. destruct (paid_run ops s HI) as (P1 & P2).
+  destruct (run_inv ops s HI) as (I' & _ & _). fold s' in I', P1, P2.
+  destruct I'. unfold deficit in *. simpl in *.
+  replace (paid s ops NA + (p_lb s - p_rl s)) with (p_lb s' - p_rl s') by lia.
+  replace (paid s ops NL + (p_ab s - p_ra s)) with (p_ab s' - p_ra s') by lia.
+  repeat split; try assumption; lia.
+Qed.
+
+(** the arithmetic core, by induction over the list of redeemed amounts: the floors of the
+    pro-rata shares of amounts that together do not exceed the supply never add up to more than the pool *)
+Definition zsum (l : list Z) : Z := fold_right Z.add 0 l.
+
+Lemma sum_floors_le P S l : 0 <= P -> 0 < S -> Forall (fun a => 0 <= a) l -> zsum l <= S ->
+  zsum (map (fun a => P * a / S) l) <= P.
+Proof.
+  intros HP HS Hnn Hsum.
+  assert (Hmul : zsum (map (fun a => P * a / S) l) * S <= P * zsum l).
+  { clear Hsum. induction l as [|a t IH]; simpl; [lia|].
+    inversion Hnn; subst. specialize (IH H2).
+    pose proof (div_lo (P * a) S HS). lia. }
+  assert (P * zsum l <= P * S) by nia.
+  nia.
+Qed.
+
+(** ------------------------------------------------------------------ price and price floor *)
+Lemma price_view_char s p : view_price s = Ok p ->
+  0 < p_lb s /\ floor_of p (p_ab s * c_prec (p_cfg s)) (p_lb s).
+Proof.
+  intros H. apply calculate_price_spec in H. destruct H as [Hl ->].
+  split; [exact Hl | apply floor_of_div; exact Hl].
+Qed.
+
+Lemma price_view_fails s : p_lb s <= 0 -> is_ok (view_price s) = false.
+Proof.
+  intros H. unfold view_price, calculate_price. destruct (0 <? p_lb s) eqn:E; [apply Z.ltb_lt in E; lia | reflexivity].
+Qed.
+
+(** an accepted launched-token deposit leaves the price at zero or at/above the minimum *)
+Lemma deposit_floor s c amt s' o :
+  ep_deposit s c TOK_L amt = Ok (s', o) ->
+  exists p, view_price s' = Ok p /\ (p = 0 \/ c_minp (p_cfg s') <= p).
+Proof.
+  intros H. apply ep_deposit_spec in H.
+  destruct H as (ph & l & price & _ & _ & _ & Hl & _ & D & Hp & Hf).
+  apply side_of_token_spec in Hl. destruct Hl as [[-> _]|[_ Hc]]; [|discriminate Hc].
+  exists price. split; [exact Hp|]. destruct D. rewrite d_cfg0. apply Hf. reflexivity.
+Qed.
+
+(** ... and one that would leave it strictly between zero and the minimum is rejected *)
+Lemma deposit_floor_rejects s c amt :
+  0 < p_ab s * c_prec (p_cfg s) / (p_lb s + amt) < c_minp (p_cfg s) ->
+  is_ok (ep_deposit s c TOK_L amt) = false.
+Proof.
+  intros Hlt. destruct (ep_deposit s c TOK_L amt) as [[s' o]|] eqn:E; [|reflexivity].
+  exfalso. apply ep_deposit_spec in E.
+  destruct E as (ph & l & price & _ & _ & _ & Hl & _ & D & Hp & Hf).
+  apply side_of_token_spec in Hl. destruct Hl as [[-> _]|[_ Hc]]; [|discriminate Hc].
+  apply calculate_price_spec in Hp. destruct Hp as [_ Hp]. destruct D. simpl in *.
+  rewrite d_cfg0, d_tr0, d_tr'0 in Hp. specialize (Hf eq_refl). lia.
+Qed.
+
+(** any accepted withdrawal leaves the price at/above the minimum *)
+Lemma withdraw_floor s c n amt s' o :
+  ep_withdraw s c n amt = Ok (s', o) ->
+  exists p, view_price s' = Ok p /\ c_minp (p_cfg s') <= p.
+Proof.
+  intros H. apply ep_withdraw_spec in H.
+  destruct H as (ph & l & w & price & _ & _ & _ & _ & _ & _ & _ & _ & _ & _ & _ & D & Hp & Hf).
+  exists price. split; [exact Hp|]. destruct D. rewrite d_cfg0. exact Hf.
+Qed.
+
+(** ... and one that would leave it below the minimum is rejected, whichever token is withdrawn *)
+Lemma withdraw_floor_rejects s c n amt ph l :
+  get_current_phase (p_cfg s) (p_block s) = Ok ph -> side_of_nonce n = Ok l ->
+  let w := amt - amt * penalty_of ph / MAXP in
+  let lb' := if l then p_lb s - w else p_lb s in
+  let ab' := if l then p_ab s else p_ab s - w in
+  ab' * c_prec (p_cfg s) / lb' < c_minp (p_cfg s) ->
+  is_ok (ep_withdraw s c n amt) = false.
+Proof.
+  intros Hph Hl w lb' ab' Hlt.
+  destruct (ep_withdraw s c n amt) as [[s' o]|] eqn:E; [|reflexivity].
+  exfalso. apply ep_withdraw_spec in E.
+  destruct E as (ph' & l' & w' & price & Hph' & _ & _ & Hl' & _ & Hw & _ & _ & _ & _ & _ & D & Hp & Hf).
+  rewrite Hph in Hph'. inversion Hph'; subst ph'. rewrite Hl in Hl'. inversion Hl'; subst l'.
+  apply calculate_price_spec in Hp. destruct Hp as [_ Hp]. destruct D.
+  rewrite d_cfg0 in Hp. subst w'. fold w in d_tr0.
+  destruct l; simpl in *; subst lb' ab'; rewrite d_tr0, d_tr'0 in Hp;
+    replace (p_lb s + - w) with (p_lb s - w) in Hp by lia;
+    replace (p_ab s + - w) with (p_ab s - w) in Hp by lia; lia.
+Qed.
+
+(** ------------------------------------------------------------------ tracked balances = real holdings *)
+Lemma tracked_eq s : Inv s -> p_block s < b_end (p_cfg s) ->
+  p_lb s = p_rl s /\ p_ab s = p_ra s /\ p_s1 s = asum (p_h1 s) /\ p_s2 s = asum (p_h2 s).
+Proof. intros HI Hb. destruct (i_open _ HI Hb) as (A & B & C & D). repeat split; congruence. Qed.
+
+(** every state reachable from a deployment that [init] accepts, by any history *)
+Lemma reach_inv cur decimals minp start dn dl df pmin pmax pfix s0 ops :
+  init_pd cur decimals minp start dn dl df pmin pmax pfix = Ok s0 -> Inv (run s0 ops).
+Proof. intros H. apply run_inv. apply (init_inv _ _ _ _ _ _ _ _ _ _ _ H). Qed.
+
+Lemma reach_tracked cur decimals minp start dn dl df pmin pmax pfix s0 ops :
+  init_pd cur decimals minp start dn dl df pmin pmax pfix = Ok s0 ->
+  let s := run s0 ops in
+  p_block s < b_end (p_cfg s) ->
+  p_lb s = p_rl s /\ p_ab s = p_ra s /\ p_s1 s = asum (p_h1 s) /\ p_s2 s = asum (p_h2 s).
+Proof. intros H s. apply tracked_eq. eapply reach_inv; eauto. Qed.
+
+Lemma reach_redeem_total cur decimals minp start dn dl df pmin pmax pfix s0 ops :
+  init_pd cur decimals minp start dn dl df pmin pmax pfix = Ok s0 ->
+  let s := run s0 ops in
+  paid s0 ops NA * p_s2 s <= p_lb s * (p_s2 s - asum (p_h2 s)) /\
+  paid s0 ops NL * p_s1 s <= p_ab s * (p_s1 s - asum (p_h1 s)) /\
+  paid s0 ops NA <= p_lb s /\ paid s0 ops NL <= p_ab s /\
+  paid s0 ops NA = p_lb s - p_rl s /\ paid s0 ops NL = p_ab s - p_ra s.
+Proof.
+  intros H s. destruct (init_inv _ _ _ _ _ _ _ _ _ _ _ H) as (HI & _ & _ & L0 & A0 & _).
+  pose proof (redeem_total s0 ops HI) as T. cbv zeta in T. fold s in T.
+  destruct (paid_run ops s0 HI) as (P1 & P2). fold s in P1, P2.
+  destruct HI. destruct i_nn0 as (N1 & N2 & N3 & N4 & _). destruct i_re0 as (R1 & R2).
+  assert (D1 : deficit s0 true = 0) by (unfold deficit; simpl; lia).
+  assert (D2 : deficit s0 false = 0) by (unfold deficit; simpl; lia).
+  rewrite D1, D2 in *. rewrite !Z.add_0_r in T. unfold deficit in P1, P2. simpl in P1, P2.
+  destruct T as (T1 & T2 & T3 & T4 & _). repeat split; try assumption; lia.
+Qed.
+
+(** ------------------------------------------------------------------ the zero-price escape
+    The property text says a launched-token deposit that would leave the price below the minimum is
+    rejected.  The code accepts it when the resulting price ROUNDS TO ZERO (the [current_price == 0 ||]
+    disjunct of deposit, needed for the very first deposit when no accepted tokens exist yet): with
+    accepted liquidity present and the price at/above the minimum, a large enough launched deposit is
+    accepted and leaves price 0 < minimum. *)
+Definition wit_s0 : pd := mkPd (mkCfg 2 5 5 5 0 0 0 5 1) 1 0 0 0 0 0 0 [] [].
+Definition wit_ops : list pdop := [Tick 1; Deposit 1 TOK_L 10; Deposit 1 TOK_A 100].
+
+Lemma wit_init : init_pd 1 0 5 2 5 5 5 0 0 0 = Ok wit_s0.
+Proof. vm_compute. reflexivity. Qed.
+
+Lemma zero_price_escape :
+  exists s c amt s' o p,
+    Inv s /\ 0 < c_minp (p_cfg s) /\ 0 < p_ab s /\
+    view_price s = Ok p /\ c_minp (p_cfg s) <= p /\
+    ep_deposit s c TOK_L amt = Ok (s', o) /\ view_price s' = Ok 0.
+Proof.
+  exists (run wit_s0 wit_ops), 2, 1000.
+  destruct (ep_deposit (run wit_s0 wit_ops) 2 TOK_L 1000) as [[s' o]|] eqn:E; [|vm_compute in E; discriminate].
+  exists s', o, 10.
+  split; [eapply reach_inv; exact wit_init|].
+  split; [vm_compute; reflexivity|]. split; [vm_compute; reflexivity|].
+  split; [vm_compute; reflexivity|]. split; [vm_compute; discriminate|].
+  split; [reflexivity|].
+  vm_compute in E. inversion E; subst. vm_compute. reflexivity.
+Qed.
